@@ -394,4 +394,27 @@ example : (lex {} "x = 1.2.3;".toList).toOption.map
     = some ([("IDENTIFIER", 1), ("SPACE", 2), ("ASSIGN", 3), ("SPACE", 4), ("CONSTANT", 5), ("SEMI_COLON", 10)],
             [("MULTIPLE_DOTS", [(1, 8)])]) := by decide +kernel
 
+/-- **Malformed family "exponent without digits", hexadecimal**: `0[xX]`, a hexadecimal mantissa (digits on at least one
+side of an optional dot), `[pP][+-]?` and `l`/`L` or nothing — `0x1p`, `0x1.8p+`, `0X.8P-l` —: one CONSTANT token and
+exactly one diagnostic added, BAD_EXPONENT from the exponent letter to the end of the constant. (Before the repair
+ed0ba8c in /repo such a constant was accepted silently; stating `hexfloat_valid` had exposed it.) -/
+theorem bad_hex_exponent_reported (u : Uni) (k : BadHexFloat) (hk : k.WF) (rest : List Char) (hb : boundaryOK rest)
+    (s : LexSt) (hr : s.rest = k.render ++ rest) :
+    ∃ s' t, trySubLexers u s = .ok (some (s', t)) ∧ t.type = "CONSTANT" ∧
+      t.value = some (String.ofList k.render) ∧ t.line = s.line ∧ t.col = s.col ∧
+      s'.rest = rest ∧
+      s'.diags = s.diags ++ [mkDiag "BAD_EXPONENT" .error
+        [⟨s.line, s.col + ('0' :: k.x :: k.mant).length, some (k.exp.length + k.sfx.toList.length), none⟩]] :=
+  Norm.bad_hex_exponent_reported u k hk rest hb s hr
+
+/-- Non-vacuity: `0x1.8p+` is a member and the whole lexer reports it at the `p`. -/
+example : (BadHexFloat.mk 'x' "1".toList (some "8".toList) 'p' (some '+') "").WF ∧
+    (BadHexFloat.mk 'x' "1".toList (some "8".toList) 'p' (some '+') "").render = "0x1.8p+".toList := by
+  refine ⟨⟨Or.inl rfl, by decide, ⟨by decide, Or.inl (by decide)⟩, Or.inl rfl, ?_, Or.inl rfl⟩, by decide⟩
+  intro s hs; simp at hs; subst hs; exact Or.inl rfl
+example : (lex {} "x = 0x1.8p+;".toList).toOption.map
+      (fun r => (r.tokens.map (fun t => (t.type, t.col)), r.diags.map (fun d => (d.name, d.highlights.map (fun h => (h.line, h.col))))))
+    = some ([("IDENTIFIER", 1), ("SPACE", 2), ("ASSIGN", 3), ("SPACE", 4), ("CONSTANT", 5), ("SEMI_COLON", 12)],
+            [("BAD_EXPONENT", [(1, 10)])]) := by decide +kernel
+
 end Norm.C11
